@@ -737,7 +737,7 @@ class Fingerprint(str):
 class SorteDeque(collections.deque):
     """A deque subclass that tries to maintain sorted ordering using bisect"""
     def insort(self, item):
-        i = bisect.bisect_left(self, item)
+        i = bisect.bisect_right(self, item)
         self.rotate(- i)
         self.appendleft(item)
         self.rotate(i)
@@ -746,7 +746,7 @@ class SorteDeque(collections.deque):
         if item in self:
             # if item is already in self, see if it is still in sorted order.
             # if not, re-sort it by removing it and then inserting it into its sorted order
-            i = bisect.bisect_left(self, item)
+            i = bisect.bisect_right(self, item)
             if i == len(self) or self[i] is not item:
                 self.remove(item)
                 self.insort(item)
